@@ -171,6 +171,31 @@ CHECKS = {
 
 NOT_YET = 'not claimed yet: the exhaustive check for this property is still under construction (see DESIGN.md section 9)'
 
+# extensions made after the texts above were written (appended to the level text; details in DESIGN.md sections 4 and 9)
+ADDENDA = {
+ 'C01': 'Also: 30 lexemes incl. verbatim environments; words over 13 lexemes with CR / CRLF / tab; invariant "a call none of whose arguments was written spans its name and recorded post-space only"; a macro declared through the pylatexenc-2 MacroStandardArgsParser and the symbol \\} in the grammars.',
+ 'C02': 'Also: deep-nesting profiles (size 4-5 over two calls), a legacy-declared macro (MacroStandardArgsParser) in the custom context, \\} as a symbol, bracketed text outside optional arguments.',
+ 'C03': 'Also: \\\\ and \\hspace in the core grammar; adjacency and same-call-twice families; converter call histories (all sequences of <= 2/3 documents of a 14-document menu on one converter per option set, and each ordered pair as one document).',
+ 'C04': 'Also: 10-rule menu incl. a callable asking for the encoder object; strings whose canonical composition involves no combining mark and astral characters without a rule x 72 configurations; helper call histories over 8 option tuples and caller-mutation histories of the built-in rule lists, one forked process per history.',
+ 'C05': 'Also: words over 13 lexemes with CR / CRLF / tab.',
+ 'C06': 'Also: termination under repetition head.unit^n.tail (19 x 31 x 4 lexeme choices, n <= 40 quick / 120 thorough, default recursion limit); words with CR / CRLF / tab. The thorough tier reports the recorded RecursionError finding.',
+ 'C07': 'Also: 21 macro frames and 14 environment frames (ragged matrix bodies, optional argument nested in an optional argument); converter call histories <= 3 over a 15-snippet menu.',
+ 'C08': 'Also: each character next to itself (,, << >> are generated; only the five real ligature pairs are excluded); a failure of the long-lived objects is re-checked with fresh objects and the shortest call history searched; converters built after another default converter was customised.',
+ 'C09': 'Also: 25-call menu incl. calls without explicit context (new default database per call), repeated parses on one walker, an embellishment marker with nothing to read after it.',
+ 'C10': 'Also: custom constructs whose single delta switches the mode and extends the context, nested to depth 3/4 with groups, formulas and a context-extending environment (every character names its expected mode).',
+ 'C11': 'Also: carriage return in the alphabet; peek under one state / read under another (math settings; short-lived states differing in the macro-name alphabet with address reuse provoked); read, go back, read under another state; rewind from the end of the stream and second complete run; complete runs over 11 lexemes <= 4/5 with a re-read of every token last to first.',
+ 'C12': 'Also: \\\\ and \\hspace in the grammar; 12 equation environments x 8 positions; 6 matrix-like environments with a comment; histories of <= 3 operations (convert, declare discarded, replace context) on one converter.',
+ 'C13': 'Also: no bare # & _ ^ ~ in character / specials nodes of the parsed output for ASCII input; strings with lone surrogates.',
+ 'C14': 'Also: every intermediate database is queried for every name while a history is replayed; 6 filter variants (keep_which with specials); a specials sequence with a first character of its own.',
+ 'C15': 'Also: names through a symlinked directory followed by dot-dot; base directory spelled through a symlink plus dot-dot; names that begin with two dots; non-strict then strict (explicitly and by default) on the same and another object; one converter re-configured between directories.',
+ 'C16': 'Also: 65 legacy variants (several stop conditions in one call, caller-supplied math-mode state, modes compared); 13 kinds of white space before an argument; every spelling also wrapped in the optional and mandatory argument of a v3 macro; is_math_mode / args_math_mode spellings.',
+ 'C17': 'Also: 35 deltas (in_math_mode alone, everything off in one step and single switches back on), 17-symbol alphabet.',
+ 'C18': 'Also: node split / filter on lists with None entries; purity of key-value parsing.',
+ 'C19': 'Also: a recorder whose callbacks return falsy values; exactly-once over object identities (nodes, lists, argument records); trees from words with CR / CRLF / tab.',
+ 'C20': 'Also: walker and calculator built with an offset left out; descending and all-pairs query orders; error line/column through the group / expression parsers and the pylatexenc-2 entry points; 10-symbol error alphabet.',
+}
+
+
 def main():
     ids = ['C%02d' % i for i in range(1, 21)]
     checks = []
@@ -178,6 +203,8 @@ def main():
     for pid in ids:
         if pid in CHECKS and os.path.exists(os.path.join(HERE, 'mc', 'checks', pid.lower() + '.py')):
             cat, text, note, tech, ref = CHECKS[pid]
+            if pid in ADDENDA:
+                text = text + ' ' + ADDENDA[pid]
             checks.append({
                 'property_id': pid,
                 'quick_cmd': './check %s --tier quick' % pid,
@@ -205,7 +232,7 @@ def main():
             'name': 'mc-explorer',
             'path': '/verif/mc/engine.py',
             'serves_properties': [c['property_id'] for c in checks],
-            'kind_free_text': 'hand-written stateless / explicit-state explorer for Python: bounded-exhaustive words, derivations with bounded deviations, BFS over operation histories of the real objects; 16 forked workers; CPU-time watchdog per execution',
+            'kind_free_text': 'hand-written stateless / explicit-state explorer for Python: bounded-exhaustive words, derivations with bounded deviations, BFS over operation histories of the real objects; one forked process per shard (16 at a time); CPU-time watchdog per execution; violations confirmed in a fresh interpreter (alone, or with their shard when history-dependent)',
         }],
         'checks': checks,
         'notes': 'All checks are run as ./check <id> --tier quick|thorough from /verif with /venv/bin/python; they import pylatexenc from /repo\'s current working tree (no build step). known_findings.json lists genuine defects recorded rather than repaired and the fix: commits.',
